@@ -625,6 +625,9 @@ pub fn run(r: &mut Runner, level: &str, profile: &str, seed: u64, count: u64, ti
     if level == "conn" && matches!(profile, "C11" | "C12") {
         big_response(r);
     }
+    if level == "conn" && profile == "C11" {
+        tcp_value_sizes(r);
+    }
     if level == "conn" && profile == "C18" {
         unread_close(r);
     }
@@ -777,6 +780,75 @@ pub fn big_response(r: &mut Runner) {
     })();
     if let Err(e) = verdict {
         r.violations.push((prog, vec!["C11", "C12"], start, format!("large response over a real socket: {}", e)));
+    }
+}
+
+/// C01 / C11 on the real write path (`encode_message` + `write_data_to_stream`, which is not the `Encoder::encode` the
+/// in-process suites go through): values around 64 KiB — where lengths stop fitting 16 bits and where a "large value"
+/// optimisation would switch — stored and fetched over a socket; every response must be exactly the frame its header
+/// announces, carry the stored bytes and flags, and be followed by the next request's response
+pub fn tcp_value_sizes(r: &mut Runner) {
+    use std::io::{Read, Write};
+    let clock = std::sync::Arc::new(crate::sut::Clock(std::sync::atomic::AtomicU64::new(0)));
+    let store: std::sync::Arc<dyn memcrs::cache::cache::Cache + Send + Sync> = std::sync::Arc::new(memcrs::memory_store::store::MemoryStore::new(clock));
+    let srv = crate::net::start_server(store, 1 << 20, 8, 30);
+    r.exec("note tcp-value-sizes: set / get / getk / noop over a socket for values of 4090..4100, 65520..65545, 131070..131075 bytes");
+    let start = r.ops.len() - 1;
+    let prog = r.prog_start.len().saturating_sub(1);
+    let mut c = match std::net::TcpStream::connect(("127.0.0.1", srv.port)) {
+        Ok(c) => c,
+        Err(_) => return,
+    };
+    c.set_nodelay(true).ok();
+    c.set_read_timeout(Some(std::time::Duration::from_millis(3000))).ok();
+    let sizes: Vec<usize> = (4090..=4100).chain(65520..=65545).chain(131070..=131075).collect();
+    for (i, n) in sizes.iter().enumerate() {
+        let key = format!("sz{}", n).into_bytes();
+        let value: Vec<u8> = (0..*n).map(|j| (j as u32 * 31 + i as u32) as u8).collect();
+        let fl = 0x0100_0000u32 + i as u32;
+        let mut b = wire::set_like(op::SET, &key, &value, fl, 0, 0, 1).bytes();
+        b.extend(wire::key_only(op::GET, &key, 0, 2).bytes());
+        b.extend(wire::key_only(op::GETK, &key, 0, 3).bytes());
+        b.extend(wire::bare(op::NOOP, 4).bytes());
+        if c.write_all(&b).is_err() {
+            r.violations.push((prog, vec!["C11", "C01"], start, format!("value of {} bytes: the connection was closed", n)));
+            return;
+        }
+        let expect = 24 + (24 + 4 + n) + (24 + 4 + key.len() + n) + 24;
+        let mut got: Vec<u8> = Vec::with_capacity(expect);
+        let mut buf = vec![0u8; 1 << 16];
+        while got.len() < expect {
+            match c.read(&mut buf) {
+                Ok(0) | Err(_) => break,
+                Ok(k) => got.extend_from_slice(&buf[..k]),
+            }
+        }
+        let verdict: Result<(), String> = (|| {
+            if got.len() != expect {
+                return Err(format!("{} response bytes instead of {}", got.len(), expect));
+            }
+            let fr = wire::split_resps(&got).map_err(|e| format!("the response stream does not split into frames: {}", e))?;
+            if fr.len() != 4 {
+                return Err(format!("{} frames instead of 4", fr.len()));
+            }
+            let g = wire::parse_resp(&fr[1])?;
+            let gk = wire::parse_resp(&fr[2])?;
+            let np = wire::parse_resp(&fr[3])?;
+            if g.opaque != 2 || g.status != 0 || g.value != value || g.extras != fl.to_be_bytes() {
+                return Err("the get response does not carry the stored value and flags".into());
+            }
+            if gk.opaque != 3 || gk.status != 0 || gk.value != value || gk.key != key {
+                return Err("the getk response does not carry the key and the stored value".into());
+            }
+            if np.opaque != 4 || np.opcode != op::NOOP {
+                return Err("the response behind the two hits is not the noop's".into());
+            }
+            Ok(())
+        })();
+        if let Err(e) = verdict {
+            r.violations.push((prog, vec!["C11", "C01"], start, format!("value of {} bytes over a real socket: {}", n, e)));
+            return;
+        }
     }
 }
 
